@@ -259,7 +259,16 @@ fn observe(s: &Scenario, r: &RunResult) -> Obs {
     let json = s.argv.iter().any(|a| a == "json");
     let diags = parse_diagnostics(&r.stderr, json);
     let compile_errors: Vec<&Diag> = diags.iter().filter(|d| d.error && !is_generator_phase(d)).collect();
-    let mut warnings: Vec<String> = diags.iter().filter(|d| !d.error).map(|d| format!("{}: {}", d.code, d.message)).collect();
+    // a warning is identified by its code, its message and the place it points at (file NAME, row, column: the
+    // directory part changes when a file moves between the lists)
+    let mut warnings: Vec<String> = diags
+        .iter()
+        .filter(|d| !d.error)
+        .map(|d| {
+            let loc = d.location.rsplit('/').next().unwrap_or("");
+            format!("{}: {} @ {}", d.code, d.message, loc)
+        })
+        .collect();
     warnings.sort();
     let hist = generator_histories(&r.trace);
     let requests: Vec<Vec<u8>> = hist.iter().filter(|h| h.spawn_errno.is_none()).map(|h| h.stdin_accepted.clone()).collect();
